@@ -145,10 +145,11 @@ class Engine:
         lo = self.spec.shrinkable_from()
         cur = list(lines)
         changed = True
-        while changed and budget > 0:
+        t_end = time.time() + 90          # shrinking is a convenience: bounded in time as well (some cases are expensive to re-run)
+        while changed and budget > 0 and time.time() < t_end:
             changed = False
             i = len(cur) - 1
-            while i >= lo and budget > 0:
+            while i >= lo and budget > 0 and time.time() < t_end:
                 cand = cur[:i] + cur[i + 1:]
                 budget -= 1
                 if self.impl_fails(hdr, cand, want_sig):
